@@ -10,7 +10,7 @@ import (
 
 func init() {
 	Register(&Scenario{Prop: "C19", Name: "progress-monotone", Run: scenC19, SoftParks: true, Weight: 1,
-		Rule: "1-3 writer replicas, one database per instance (type drawn per run); 3-14 (thorough 3-40) writes (single, or 1-3 concurrent local writers stopped at the write-path points while replication goes on) with replication under faults, local writes whose cache write fails with a disk error (the entry is in the log, the call reports the error), far-ahead heads (one writer runs ahead while links are cut), clean restart + Load(-1); GetProgress/GetMax sampled on every open store after every kernel step must never decrease; whenever the world is at rest and a replica's log is complete: progress == max and maxLamport <= progress <= Len; non-trivial = >=3 writes, >=1 at-rest check on a replica that replicated >=1 entry (or single replica), >=20 samples"})
+		Rule: "1-3 writer replicas, one database per instance (type drawn per run); 3-14 (thorough 3-40) writes (single, or 1-3 concurrent local writers stopped at the write-path points while replication goes on) with replication under faults, local writes whose cache write fails with a disk error (the entry is in the log, the call reports the error), far-ahead heads (one writer runs ahead while links are cut), clean restart + Load(-1) or (1 in 3) SaveSnapshot + clean restart + LoadFromSnapshot, the heads write at the end of a merge failing with a disk error, progress events held back behind the end of their replication (1 run in 3); GetProgress/GetMax sampled on every open store after every kernel step must never decrease; whenever the world is at rest and a replica's log is complete: progress == max and maxLamport <= progress <= Len; non-trivial = >=3 writes, >=1 at-rest check on a replica that replicated >=1 entry (or single replica), >=20 samples"})
 }
 
 func scenC19(k *K) {
@@ -190,10 +190,16 @@ func scenC19(k *K) {
 		case 2:
 			node := k.C.Intn(n)
 			if c.Stores[node] != nil && k.opsInFlightOn(node) == 0 {
+				// 1 restart in 3 comes back from a snapshot saved just before the stop
+				snap := k.C.Chance(1, 3) && c.SaveSnapshot(node)
 				delete(last, c.Stores[node])
 				c.Down(node, false)
 				k.Steps(k.C.Intn(4))
-				if err := c.Up(node); err != nil {
+				if snap {
+					if err := c.UpFromSnapshot(node); err != nil {
+						k.Failf("C19/restart-load-error", "restart of n%d from its snapshot failed: %v", node, err)
+					}
+				} else if err := c.Up(node); err != nil {
 					k.Failf("C19/restart-load-error", "restart of n%d failed: %v", node, err)
 				}
 			}
